@@ -605,6 +605,60 @@ pub fn run(ctx: &mut Ctx) {
         ctx.shape(&("history", idx));
     });
 
+    // ------------------------------------------------ the same across states: a call (state1, message1, direction1) with every
+    // message kind and EVERY alert severity 0..255, immediately followed by (state2, message2, direction2) for all
+    // states, directions and kinds: the second answer is the one the second call gives alone
+    ctx.floor("history.cross-pairs", 15_000_000);
+    ctx.sweep("call-history-cross-state-pairs", 50, |ctx, idx| {
+        let s1 = STATES[(idx / 2) as usize];
+        let d1 = idx % 2 == 0;
+        let mut rng = Rng::new(0xC08D + idx);
+        let sc = Scratch::new(&mut rng);
+        let mut items: Vec<(K, (u8, u8))> = HS_KINDS.iter().map(|k| (*k, (0, 0))).collect();
+        items.extend([(K::Ccs, (0, 0)), (K::AppData, (0, 0)), (K::Heartbeat, (0, 0))]);
+        for lvl in [0u8, 1, 2, 3, 255] {
+            items.push((if lvl == 1 { K::AlertWarning } else { K::AlertOther }, (lvl, 40)));
+        }
+        let second: Vec<TlsMessage> = items.iter().map(|(k, a)| make(*k, &sc, &mut rng, *a)).collect();
+        let mut first_items = items.clone();
+        for lvl in 4u8..=254 {
+            first_items.push((K::AlertOther, (lvl, (lvl % 3) * 40)));
+        }
+        let first: Vec<TlsMessage> = first_items.iter().map(|(k, a)| make(*k, &sc, &mut rng, *a)).collect();
+        let mut alone: Vec<Vec<R>> = Vec::new();
+        for s2 in STATES.iter() {
+            for d2 in [true, false] {
+                alone.push(second.iter().map(|m| tls_state_transition(*s2, m, d2)).collect());
+            }
+        }
+        let mut pairs = 0u64;
+        for (i, m1) in first.iter().enumerate() {
+            let mut row = 0;
+            for s2 in STATES.iter() {
+                for d2 in [true, false] {
+                    for (j, m2) in second.iter().enumerate() {
+                        let _ = tls_state_transition(s1, m1, d1);
+                        let got = tls_state_transition(*s2, m2, d2);
+                        pairs += 1;
+                        if got != alone[row][j] {
+                            ctx.violation(
+                                format!("c08:call-history-dependence:cross-state:{:?}-in-{:?}-after-{:?}-in-{:?}", items[j].0, s2, first_items[i].0, s1),
+                                json!({"first_call": {"state": format!("{:?}", s1), "to_server": d1, "message": format!("{:.200?}", m1)},
+                                       "second_call": {"state": format!("{:?}", s2), "to_server": d2, "message": format!("{:.200?}", m2)},
+                                       "second_call_alone": res_str(&alone[row][j]), "second_call_after_first": res_str(&got)}),
+                            );
+                            return;
+                        }
+                    }
+                    row += 1;
+                }
+            }
+        }
+        ctx.evals(pairs);
+        ctx.add("history.cross-pairs", pairs);
+        ctx.shape(&("history-cross", idx));
+    });
+
     // ------------------------------------------------ documented flows (explicit sequences)
     // (kind, to_server); flows end in SessionEncrypted unless an end state is given
     use TlsState as S;
